@@ -175,6 +175,29 @@ Definition holders (t : jtree) (x : node) : list nat :=
 Definition rip_chk (t : jtree) : bool :=
   forallb (fun x => conn_chk (jedges t) (holders t x)) (udedup (concat (jcliques t))).
 
+(* ---- weight of a clique tree (sum of the sepset sizes, what pgmpy hands to the spanning-tree routine with a
+   minus sign) and the bound sum_x (|holders x| - 1) that exactly the junction trees attain --------------- *)
+Definition count {A} (p : A -> bool) (l : list A) : nat := length (filter p l).
+Fixpoint sumn {A} (f : A -> nat) (l : list A) : nat :=
+  match l with [] => 0 | a :: r => f a + sumn f r end.
+Definition clq (t : jtree) (i : nat) : list node := nth i (jcliques t) [].
+Definition sepw (t : jtree) (e : nat * nat) : nat := count (fun x => memn x (clq t (snd e))) (clq t (fst e)).
+Definition weight (t : jtree) : nat := sumn (sepw t) (jedges t).
+Definition allvars (t : jtree) : list node := udedup (concat (jcliques t)).
+Definition wstar (t : jtree) : nat := sumn (fun x => length (holders t x) - 1) (allvars t).
+
+(* checker for a listing F of the maximal cliques of g (nx.find_cliques, in its own order): members are
+   duplicate-free cliques inside the vertex set, pairwise not included in each other, and every maximal clique
+   found by brute force lies in one of them *)
+Fixpoint nodupb (l : list node) : bool :=
+  match l with [] => true | x :: r => negb (memn x r) && nodupb r end.
+Definition max_cliques_chk (g : ugraph) (F : list (list node)) : bool :=
+  let E := uedges g in let V := vertices g in
+  forallb (fun C => nodupb C && subsetn C V && is_cliqueb E C) F &&
+  forallb (fun M => existsb (fun C => subsetn M C) F) (all_max_cliques g) &&
+  forallb (fun i => forallb (fun j => Nat.eqb i j || negb (subsetn (nth i F []) (nth j F []))) (seq 0 (length F)))
+          (seq 0 (length F)).
+
 (* ================================================================== factors *)
 Section Factors.
 Variable R : csr.
